@@ -60,3 +60,40 @@ def p_retry(k, cls, nfail):
     for _ in range(nfail + 2):
         out.append(_attempt(lambda: dds.keep("/c10r/flaky", flaky, k, cls, nfail), "flaky"))
     return out
+
+
+# --- a failed evaluation whose sub-result completed, then another pipeline that only loads that path
+
+
+def table_v1():
+    vlog.hit("table_v1")
+    return "table-v1"
+
+
+def table_v2():
+    vlog.hit("table_v2")
+    return "table-v2"
+
+
+def boom(cls):
+    vlog.hit("boom")
+    raise vlog.make_exc_named("boom", cls, "boom after the table was produced")
+
+
+def p_table_ok():
+    return dds.keep("/c10l/table", table_v1)
+
+
+def p_table_then_fail(cls):
+    t = dds.keep("/c10l/table", table_v2)
+    b = dds.keep("/c10l/boom", boom, cls)
+    return (t, b)
+
+
+def p_loader():
+    vlog.hit("p_loader")
+    return ("loaded", dds.load("/c10l/table"))
+
+
+def p_kept_loader():
+    return dds.keep("/c10l/report", p_loader)
